@@ -24,6 +24,8 @@ import IgrisModel.C19.Lemmas2
 import IgrisModel.C19.LemmasPtr
 import IgrisModel.C19.Lemmas3
 import IgrisModel.C19.Lemmas4
+import IgrisModel.C19.Lemmas5
+import IgrisModel.C19.Lemmas6
 namespace Igris.C19
 open Igris.Proto
 
@@ -1215,5 +1217,79 @@ theorem delimTable_lookup (d : Str) (c : Byte) : (delimTable d)[c.toNat]? = some
     | cons x xs ih =>
       rw [List.any_cons, List.contains_cons, ih, key x, Bool.beq_comm]
   rw [h0, h1]
+
+/-! ## Round 3b: `path_compare_node` with explicit indices
+
+`compareNodeP` (Model3.lean) reads the two allocations through `rd`: an index behind a block is
+`PR.oob index`, exhausted fuel is `PR.fuel`.  The driver runs THIS function for `pcmp`. -/
+
+/-- refinement: wherever the cursor model of Model.lean yields a value, the index-level model
+yields the same value - so `compareNode_spec` / `compareNode_zero_iff` transfer; the fuel
+`remaining bytes of a's block + 1` always suffices -/
+theorem compareNodeP_refines (ma mb : Str) (a b : Nat) (v : Int)
+    (h : compareNode (ma.drop a) (mb.drop b) = some v) :
+    compareNodeP ma mb (ma.length - a + 1) a b = .ok v :=
+  compareNodeP_ok ma mb _ a b v (by omega) h
+
+example : compareNode (([0x61#8, 0x2f#8, 0#8] : Str).drop 0) (([0x62#8, 0#8] : Str).drop 0) = some (-1) := by decide
+
+/-- for two C strings (text, terminator, anything behind it): no access outside either
+allocation, the loop ends, and the value is the signed lexicographic order of the first pieces -/
+theorem compareNodeP_safe (a ja b jb : Str) (ha : NUL ∉ a) (hb : NUL ∉ b) :
+    compareNodeP (a ++ NUL :: ja) (b ++ NUL :: jb) ((a ++ NUL :: ja).length + 1) 0 0
+      = .ok (lexCmp (headComp a) (headComp b)) := by
+  have h := compareNode_spec a ja b jb ha hb
+  exact compareNodeP_ok _ _ _ 0 0 _ (by omega) (by rw [List.drop_zero, List.drop_zero]; exact h)
+
+example : NUL ∉ ([0x61#8, 0x2f#8] : Str) := by decide
+
+/-- totality, exactly: with enough fuel the routine either returns a value or touches the byte
+directly behind one of the two blocks - never any other index, never `fuel`; and it returns a
+value **iff** the cursor model does (i.e. iff both first pieces end inside their blocks) -/
+theorem compareNodeP_total (ma mb : Str) (a b : Nat) (hal : a ≤ ma.length) (hbl : b ≤ mb.length) :
+    (∃ v, compareNodeP ma mb (ma.length - a + 1) a b = .ok v ∧ compareNode (ma.drop a) (mb.drop b) = some v)
+    ∨ (compareNode (ma.drop a) (mb.drop b) = none ∧
+        (compareNodeP ma mb (ma.length - a + 1) a b = .oob ma.length
+          ∨ compareNodeP ma mb (ma.length - a + 1) a b = .oob mb.length)) := by
+  cases h : compareNode (ma.drop a) (mb.drop b) with
+  | some v => exact Or.inl ⟨v, compareNodeP_ok ma mb _ a b v (by omega) h, rfl⟩
+  | none => exact Or.inr ⟨rfl, compareNodeP_oob ma mb _ a b (by omega) hal hbl h⟩
+
+/-- non-terminated arguments (outside the contract): equal texts without terminator run to the
+byte behind the first block; a piece that ends in `a` but not in `b` reads behind `b`'s block -/
+theorem compareNodeP_unterminated_witness :
+    compareNodeP [0x61#8] [0x61#8] 2 0 0 = .oob 1
+    ∧ compareNodeP [0x61#8, 0#8] [0x61#8] 3 0 0 = .oob 1
+    ∧ compareNodeP [0x61#8, 0x62#8, 0#8] [0x61#8] 4 0 0 = .oob 1 := by decide
+
+/-! ## Round 3b: `path_remove_prefix` with explicit indices
+
+`pathRemovePrefixP` (Ptr2.lean): the loop of the C code over two memory blocks, built from `rd`,
+`compareNodeP` and `pathIterateP`; a NULL from `path_iterate` would be the result `oob (-1)`.
+The driver runs THIS function for `prem`. -/
+
+/-- refinement: wherever the cursor model yields a cursor, the index-level model yields the
+index at which that cursor begins -/
+theorem pathRemovePrefixP_refines (mp mq : Str) (c : Cur) (h : pathRemovePrefix mp mq = some c) :
+    ∃ r, pathRemovePrefixP mp mq = .ok r ∧ c = mp.drop r := by
+  unfold pathRemovePrefix at h
+  exact removePrefixLoopP_ok mp mq _ 0 0 c (by rw [List.drop_zero, List.drop_zero]; exact h)
+
+example : pathRemovePrefix [0x61#8, 0#8] [0x61#8, 0#8] = some [0#8] := by decide
+
+/-- for two C strings: no access outside either allocation, no NULL dereference, the loop ends
+within `strlen(path) + strlen(prefix) + 3` iterations, and the returned pointer is where the
+component-wise reference `removePrefixSpec` (followed by the terminator) begins -/
+theorem pathRemovePrefixP_safe (p jp q jq : Str) (hp : NUL ∉ p) (hq : NUL ∉ q) :
+    ∃ r, pathRemovePrefixP (p ++ NUL :: jp) (q ++ NUL :: jq) = .ok r ∧
+      (p ++ NUL :: jp).drop r = removePrefixSpec p q ++ NUL :: jp := by
+  obtain ⟨r, hr, e⟩ := pathRemovePrefixP_refines _ _ _ (pathRemovePrefix_spec p jp q jq hp hq)
+  exact ⟨r, hr, e.symm⟩
+
+/-- instances: `"/a/b"` minus `"/a"` is the pointer at offset 3 (`"b"`); a prefix block without
+terminator is read behind its end (outside the contract) -/
+theorem pathRemovePrefixP_witness :
+    pathRemovePrefixP [0x2f#8, 0x61#8, 0x2f#8, 0x62#8, 0#8] [0x2f#8, 0x61#8, 0#8] = .ok 3
+    ∧ pathRemovePrefixP [0x61#8, 0#8] [0x61#8] = .oob 1 := by decide
 
 end Igris.C19
